@@ -133,3 +133,36 @@ CHECKS["C01"] = {
     "assumptions": ["only the C/POSIX locales exist in the image, so strcoll order = byte order",
                     "a drop-in named exactly like the main file and a <project>.<suffix> file in drop-in-only mode are outside the property"],
 }
+
+CHECKS["C06"] = {
+    "engine": "E1",
+    "technique": "bounded exhaustive enumeration of trees x callback entry points x rejection positions with a poison-swap callback on the real code",
+    "level_text": "for each of the four callback entry points, every tree over the name universe and every rejection set (none, the i-th consulted file; "
+                  "thorough: every pair) is executed; files hold poison until the callback accepts them, so any use before or without asking is visible; "
+                  "callback sequence, data pointer, return code and out-pointers are compared with the reference processing list",
+    "level_note": "bounded: 3 names (quick) / 4 names and pairs of rejections (thorough); main file states {absent, regular, empty}; trusted: reference list in tree.h, the poison-swap callback, ASan/UBSan",
+    "rule": "case = (entry point, tree, rejection set); non-trivial = a rejection happens or at least two files are consulted; distinct by construction",
+    "deadline": {"quick": 100, "thorough": 900},
+    "parts": [
+        {"name": "poison-swap", "harness": "c06", "variant": "asan", "quick": ["--p0", 4], "thorough": ["--p0", 5, "--p1", 1],
+         "floor": {"quick": 10000, "thorough": 100000}},
+    ],
+    "assumptions": ["calls of the callback after the first rejection are neither required nor forbidden by the statement and are not judged"],
+}
+
+CHECKS["C12"] = {
+    "engine": "E1",
+    "technique": "bounded exhaustive differential enumeration: all six layered-read entry points on every tree of the universe, plus reference processing list and public-API fold of the history",
+    "level_text": "every two-layer tree (x 3 suffix spellings x 5 NULL/empty directory variants x 2 drop-in directory lists) is read through all six entry "
+                  "points, every three-layer tree through the two PARSING_DIRS ones; return codes and canonical dumps must agree, the history must equal "
+                  "the callback log and the reference list with every member equal to its file read alone, and folding the history with the public "
+                  "econf_mergeFiles must reproduce the merged result",
+    "level_note": "bounded: 4 names two-layer / 3 names three-layer (quick), 5 / 4 (thorough); trusted: tree.h reference list, dump equality, ASan/UBSan",
+    "rule": "case = (shape, tree); non-trivial = at least two files consulted; distinct by construction",
+    "deadline": {"quick": 100, "thorough": 900},
+    "parts": [
+        {"name": "entrypoints", "harness": "c12", "variant": "asan", "quick": ["--p0", 4, "--p1", 3], "thorough": ["--p0", 5, "--p1", 4],
+         "floor": {"quick": 10000, "thorough": 100000}},
+    ],
+    "assumptions": ["nothing named verif-c12-cfg* exists in the root directory (NULL/\"\" directory arguments resolve there)"],
+}
